@@ -31,7 +31,7 @@ def hashseeds(tier):
 
 def regular_operands(tier, seed, work, stats):
     ops = []
-    for kind, nq, mt, k in (("enfa", 2, 2, 1), ("nfa", 2, 2, 1), ("dfa", 2, 2, 1), ("nfa", 3, 3, 40)):
+    for kind, nq, mt, k in (("enfa", 2, 2, 1), ("nfa", 2, 2, 1), ("dfa", 2, 2, 1), ("nfa", 3, 3, 25)):
         states = core.tlc_dump("FAGen", c01.gen_cfg(kind, nq, mt, 0, invariants=False, maxs=2, maxf=2), work, stats=stats,
                                name="FAGen-%s-q%d-t%d" % (kind, nq, mt))
         states = c01.sample(states, k, seed)
@@ -67,10 +67,60 @@ def generate(tier, seed, work, stats):
             cases.append(dict(kind="pda", hist=c["hist"], spool=c["spool"], kpool=c["kpool"], operand=ops[k % len(ops)],
                               operand2=ops[(k * 7 + 3) % len(ops)], L=3, family="pairs"))
             k += 1
+    # chained intersections (pda & r1) & r2 with two nondeterministic 3-state operands over the same integer state names:
+    # the names of product states and of subset states are then built from the same spellings
+    nfa_ops = [o for o in ops if o["rkind"] in ("nfa", "enfa") and len(o["calls"]) >= 4]
+    if nfa_ops and pcases:
+        for i in range(1000 if tier == "quick" else 20000):
+            c = pcases[rnd.randrange(len(pcases))]
+            cases.append(dict(kind="pda", hist=c["hist"], spool=c["spool"], kpool=c["kpool"], operand=rnd.choice(nfa_ops),
+                              operand2=rnd.choice(nfa_ops), L=3, family="chains"))
+    cases += directed_chains(500 if tier == "quick" else 10000, seed + 3)
     for i in range(40):
         c = dict(cases[i * 7 % len(cases)])
         c["badtype"] = True
         cases.append(c)
+    return cases
+
+
+CHAIN_PDAS = [
+    # (a^n b^n)* by final state
+    [["set_start_state", "q0"], ["set_start_stack_symbol", "Z"], ["add_final_state", "q2"],
+     ["add_transition", "q0", "a", "Z", "q0", ["X", "Z"]], ["add_transition", "q0", "a", "X", "q0", ["X", "X"]],
+     ["add_transition", "q0", "b", "X", "q1", []], ["add_transition", "q1", "b", "X", "q1", []],
+     ["add_transition", "q1", "eps", "Z", "q2", ["Z"]], ["add_transition", "q0", "eps", "Z", "q2", ["Z"]],
+     ["add_transition", "q2", "a", "Z", "q0", ["X", "Z"]]],
+    # every word, one state (the product is then the regular operand itself)
+    [["set_start_state", "q0"], ["set_start_stack_symbol", "Z"], ["add_final_state", "q0"],
+     ["add_transition", "q0", "a", "Z", "q0", ["Z"]], ["add_transition", "q0", "b", "Z", "q0", ["Z"]]],
+    # words with as many b as a before them (Dyck-like), two states
+    [["set_start_state", "q0"], ["set_start_stack_symbol", "Z"], ["add_final_state", "q1"],
+     ["add_transition", "q0", "a", "Z", "q0", ["X", "Z"]], ["add_transition", "q0", "a", "X", "q0", ["X", "X"]],
+     ["add_transition", "q0", "b", "X", "q0", []], ["add_transition", "q0", "eps", "Z", "q1", ["Z"]],
+     ["add_transition", "q1", "a", "Z", "q0", ["X", "Z"]]],
+]
+
+
+def directed_chains(n, seed):
+    """(pda & r1) & r2 with random nondeterministic operands over the integer states 0..2 (4-6 transitions): subset names
+    of r1, of r2 and the product names of the first intersection are then built from the same spellings; words up to 4."""
+    rnd = random.Random(seed)
+    cases = []
+    for i in range(n):
+        operands = []
+        for _ in range(2):
+            nq = rnd.choice((2, 3, 3))
+            calls = [["add_start_state", "q0"]]
+            if rnd.random() < 0.2:
+                calls.append(["add_start_state", "q%d" % rnd.randrange(nq)])
+            for _ in range(rnd.randint(3, 6)):
+                calls.append(["add_transition", "q%d" % rnd.randrange(nq), rnd.choice("ab"), "q%d" % rnd.randrange(nq)])
+            calls.append(["add_final_state", "q%d" % rnd.randrange(nq)])
+            if rnd.random() < 0.3:
+                calls.append(["add_final_state", "q%d" % rnd.randrange(nq)])
+            operands.append(dict(rkind="nfa", calls=calls))
+        cases.append(dict(kind="pda", hist=CHAIN_PDAS[i % len(CHAIN_PDAS)], spool="q", kpool="ZX", operand=operands[0],
+                          operand2=operands[1], L=4, family="directed-chains"))
     return cases
 
 
